@@ -1117,6 +1117,45 @@ fn boundary_ops() -> Vec<String> {
     out.push("de dv a(n,n,n,n,n)".into());
     out.push("de dv n".into());
     out.push("de dv s78".into());
+    // date-time texts: every field at its first / last valid value and the next one, per month and leap rule, offsets at +-23:59
+    let mut dts: Vec<String> = vec![];
+    for mo in [0, 1, 2, 11, 12, 13, 99] {
+        dts.push(format!("2020-{:02}-01T00:00:00Z", mo));
+        dts.push(format!("2020-{:02}-31T00:00:00Z", mo));
+    }
+    for (y, mo) in [(2020, 2), (2021, 2), (1900, 2), (2000, 2), (2020, 4), (2020, 6), (2020, 9), (2020, 11), (2020, 1), (2020, 12)] {
+        for d in [0, 1, 28, 29, 30, 31, 32] {
+            dts.push(format!("{:04}-{:02}-{:02}T12:00:00Z", y, mo, d));
+        }
+    }
+    for h in [0, 23, 24, 99] {
+        dts.push(format!("2020-01-01T{:02}:00:00Z", h));
+    }
+    for mi in [59, 60, 99] {
+        dts.push(format!("2020-01-01T00:{:02}:00Z", mi));
+    }
+    for sec in [59, 60, 61, 99] {
+        dts.push(format!("2020-01-01T00:00:{:02}Z", sec));
+        dts.push(format!("2020-01-01T00:00:{:02}.5Z", sec));
+    }
+    for off in ["+23:59", "-23:59", "+24:00", "-24:00", "+00:59", "+00:60", "+99:59", "-00:00", "+00:00", "+0000", "+00", "+1:00"] {
+        dts.push(format!("2020-01-01T00:00:00{}", off));
+    }
+    for t in [
+        "1601-01-01T00:00:00Z", "1601-01-01T00:00:00.000000001Z", "1600-12-31T23:59:59.999999999Z", "1601-01-01T23:59:00+23:59", "1601-01-01T00:00:00+00:01",
+        "1600-12-31T00:01:00-23:59", "9999-12-31T23:59:59Z", "9999-12-31T23:59:59.000000001Z", "9999-12-31T23:59:60Z", "9999-12-31T23:59:58.999999999Z",
+        "9999-12-31T23:59:59-00:01", "9999-12-31T23:59:59+00:01", "0000-01-01T00:00:00Z", "0001-01-01T00:00:00Z", "2020-1-01T00:00:00Z", "02020-01-01T00:00:00Z",
+        "2020-01-01T00:00:00.Z", "2020-01-01T00:00:00.123456789Z", "2020-01-01T00:00:00.1234567891Z", "2020-01-01T00:00:00,5Z", "2020-01-01", "2020-01-01T00:00Z",
+    ] {
+        dts.push(t.to_string());
+    }
+    for t in &dts {
+        out.push(format!("de dt {}", k(t)));
+    }
+    for t in dts.iter().step_by(5) {
+        out.push(format!("de dv o({},{})", k("SourceTimestamp"), k(t)));
+        out.push(var(13, Some(&k(t))));
+    }
     // status codes
     for sc in ["i0", "i1", "i4294967295", "i4294967296", "i-1", "d3ff0000000000000", "n", "s30"] {
         out.push(format!("de sc {}", sc));
